@@ -573,6 +573,26 @@ Definition m_vunpackvs (buf : list Z) : option vhdr :=
   Some (mkvh il nv ivs (zip_fields names types isizes offs orders) vsname vsclass extag exref version more)
   end end end end end end end end end end end end end end end.
 
+(* ------------------------------------------------------------------ *)
+(** * VSsizeof (vg.c ~388) *)
+
+(** the search loop for one requested name: the first field of the vdata with that name contributes ITS esize
+    ([totalsize += vs->wlist.esize[j]], j = index of the matching field); no match = FAIL *)
+Fixpoint sizeof_find (nm : list Z) (fl : list wfield) : option Z :=
+  match fl with [] => None | f :: t => if name_eqb nm (w_name f) then Some (w_esize f) else sizeof_find nm t end.
+Fixpoint sizeof_loop (fl : list wfield) (names : list (list Z)) (total : Z) : option Z :=
+  match names with
+  | [] => Some total
+  | nm :: rest => match sizeof_find nm fl with None => None | Some e => sizeof_loop fl rest (total + e) end
+  end.
+(** [names = None]: the NULL field list, all fields *)
+Definition m_vssizeof (fl : list wfield) (names : option (list (list Z))) : option Z :=
+  match names with
+  | None => Some (fold_left (fun a f => a + w_esize f) fl 0)
+  | Some [] => None
+  | Some l => if VSFIELDMAX <? Z.of_nat (length l) then None else sizeof_loop fl (map cut_name l) 0
+  end.
+
 (** VSsetname / VSsetclass (vg.c): the string is cut at VSNAMELENMAX characters; the header is marked as changing
     size ([new_h_sz], which makes VSdetach release the old header element before it writes the new one) when the new
     string is longer than the CURRENT string of the same kind.  [grow] is the regenerated condition. *)
